@@ -22,27 +22,28 @@ type CaseJSON struct {
 
 // Meta is written to meta.json.
 type Meta struct {
-	Cases     int            `json:"cases"`
-	Frames    int            `json:"frames"`
-	Shards    []string       `json:"shards"`
-	ShardSize int            `json:"shard_size"`
-	OpKinds   map[string]int `json:"op_kinds"`
-	Status    map[string]int `json:"final_status"`
-	Blocked   int            `json:"cases_with_queued_frames"`
-	Unblocked int            `json:"cases_with_release_on_window_update_or_settings"`
-	NegWin    int            `json:"cases_with_negative_window"`
-	Split     int            `json:"cases_with_data_or_header_splitting"`
-	Cont      int            `json:"cases_with_continuation_input"`
-	Padded    int            `json:"cases_with_padding"`
-	Streams   map[string]int `json:"streams_per_case"`
-	NonTriv   int            `json:"distinct_nontrivial_frames"`
-	seen      map[string]bool
-	Samples   []CaseJSON  `json:"samples"`
-	E2E       []E2EResult `json:"e2e,omitempty"`
-	E2EPlayed int         `json:"e2e_played"`
-	E2EFailed int         `json:"e2e_failed"`
-	Preface   string      `json:"preface_shard,omitempty"`
-	PrefaceN  int         `json:"preface_cases,omitempty"`
+	Cases           int            `json:"cases"`
+	Frames          int            `json:"frames"`
+	Shards          []string       `json:"shards"`
+	ShardSize       int            `json:"shard_size"`
+	OpKinds         map[string]int `json:"op_kinds"`
+	Status          map[string]int `json:"final_status"`
+	Blocked         int            `json:"cases_with_queued_frames"`
+	Unblocked       int            `json:"cases_with_release_on_window_update_or_settings"`
+	NegWin          int            `json:"cases_with_negative_window"`
+	Split           int            `json:"cases_with_data_or_header_splitting"`
+	Cont            int            `json:"cases_with_continuation_input"`
+	Padded          int            `json:"cases_with_padding"`
+	Streams         map[string]int `json:"streams_per_case"`
+	NonTriv         int            `json:"distinct_nontrivial_frames"`
+	seen            map[string]bool
+	Samples         []CaseJSON  `json:"samples"`
+	E2E             []E2EResult `json:"e2e,omitempty"`
+	E2EPlayed       int         `json:"e2e_played"`
+	E2EInconclusive int         `json:"e2e_stopped_at_map_order_difference"`
+	E2EFailed       int         `json:"e2e_failed"`
+	Preface         string      `json:"preface_shard,omitempty"`
+	PrefaceN        int         `json:"preface_cases,omitempty"`
 }
 
 func (m *Meta) account(name string, ops []Op, c *Case) {
@@ -254,6 +255,9 @@ func MainOpt(propWhy string, withPreface bool) {
 			}
 			r := env.PlayE2E(descr[i].Name, c, 3*time.Second)
 			m.E2EPlayed++
+			if r.Inconclusive {
+				m.E2EInconclusive++
+			}
 			if !r.OK {
 				m.E2EFailed++
 				m.E2E = append(m.E2E, r)
